@@ -1,14 +1,14 @@
 SPECIFICATION Spec
 CONSTANTS
-  MaxH = 7
+  MaxH = 10
   Page = 3
   TSet = {0}
-  RSet = {}
-  RUB = FALSE
-  MTB = 0
+  RSet = {3, 4, 5, 6, 7, 8, 9}
+  RUB = TRUE
+  MTB = 1
   GCP = 1
   MaxCrash = 2
-  MaxReset = 1
-  Dev = {"ResetKeepsPages"}
+  MaxReset = 0
+  Dev = {}
 INVARIANTS AbsAnswers AbsTip AbsHeights AbsReset CanRestart NoDead MemCanonical RestartTransparent DiskPages KeepsList
 CHECK_DEADLOCK FALSE
